@@ -99,7 +99,7 @@ func ParseSignature(data string) (*Signature, error) {
 }
 
 func (s *Signature) parse(data string) error {
-	o, err := jose.ParseSigned(data, joseSignatureAlgorithms)
+	o, err := jose.ParseSignedCompact(data, joseSignatureAlgorithms)
 	if err != nil {
 		return fmt.Errorf("dsig: %w", err)
 	}
